@@ -1,6 +1,8 @@
 // Harness for property C18 (2FA SRP answer).
 //
 //	gen <tier> <cases-out>    generate cases, run the implementation and the reference server, write the case file
+//	probe <cases-out>         truncated-key collision probe: sequential x cases in one process (see cmdProbe)
+//	seq <file>                run the calls listed in the file (one argument list of `one` per line) in order in ONE process
 //	one <kind> <fields...>    re-run one case line (fields as in the case file, inputs only) and print the fresh result fields
 //
 // The reference SRP server (refServer) and the reference client arithmetic (refClient, used only to
@@ -1139,15 +1141,106 @@ func buildAP(apkind string, srpB []byte, srpid int64, s1, s2 []byte, g int32, P 
 	return &telegram.AccountPassword{HasPassword: true, CurrentAlgo: algo, SRPB: srpB, SRPID: srpid}
 }
 
+// ---------------------------------------------------------------------------------------------
+// truncated-key collision probe (history stage)
+//
+// A process-wide cache keyed by a few bytes of an intermediate digest would make a later call reuse
+// an earlier password's PBKDF2 output.  With the harness's OWN reference hashes we birthday-search,
+// for one (salt1, salt2), pairs pwA != pwB whose PH1 = SH(SH(pw,salt1),salt2) agree on the first / last
+// 4 bytes and whose inner hash SH(pw,salt1) agree on the first / last 4 bytes.  Then, sequentially in THIS
+// one process: A against A's verifier (accept), B against A's verifier (REJECT), B against B's verifier
+// (accept), A against B's verifier (REJECT).  The lines are ordinary x cases: they are also compared with
+// the model and re-run one by one in fresh processes.
+func cmdProbe(path string) {
+	r := vc.NewRng(vc.Seed() ^ 0x18c0111de)
+	real := realGroup()
+	s1, s2 := r.Bytes(40), r.Bytes(16)
+	type slot struct {
+		name string
+		key  func(inner, h1 []byte) [4]byte
+		seen map[[4]byte]string
+		a, b string
+	}
+	k4 := func(b []byte) (k [4]byte) { copy(k[:], b); return }
+	slots := []*slot{
+		{name: "PH1[0:4]", key: func(in, h1 []byte) [4]byte { return k4(h1[:4]) }},
+		{name: "PH1[28:32]", key: func(in, h1 []byte) [4]byte { return k4(h1[28:]) }},
+		{name: "SH(pw,salt1)[0:4]", key: func(in, h1 []byte) [4]byte { return k4(in[:4]) }},
+		{name: "SH(pw,salt1)[28:32]", key: func(in, h1 []byte) [4]byte { return k4(in[28:]) }},
+	}
+	for _, sl := range slots {
+		sl.seen = map[[4]byte]string{}
+	}
+	tried, open := 0, len(slots)
+	for open > 0 && tried < 1<<22 {
+		tried++
+		pw := fmt.Sprintf("probe-%016x", r.U64())
+		inner := sh([]byte(pw), s1)
+		h1 := sh(inner, s2)
+		for _, sl := range slots {
+			if sl.a != "" {
+				continue
+			}
+			k := sl.key(inner, h1)
+			if prev, ok := sl.seen[k]; ok && prev != pw {
+				sl.a, sl.b = prev, pw
+				open--
+			} else {
+				sl.seen[k] = pw
+			}
+		}
+	}
+	out := vc.Create(path)
+	n := 0
+	for _, sl := range slots {
+		if sl.a == "" {
+			continue
+		}
+		for step, pr := range [][2]string{{sl.a, sl.a}, {sl.a, sl.b}, {sl.b, sl.b}, {sl.b, sl.a}} {
+			n++
+			o := xopts{g: real, gval: 3, pw: pr[0], typed: pr[1], s1: s1, s2: s2, b: num(r.Bytes(256)),
+				random:   r.Bytes(256),
+				extraTag: fmt.Sprintf("probe:%s collides for %q and %q; call %d of 4 in one process", sl.name, sl.a, sl.b, step+1)}
+			if pr[0] == pr[1] {
+				o.typed = ""
+			}
+			oc := exchange(fmt.Sprintf("p%04d", n), o, r.Fork(uint64(n)))
+			for _, l := range oc.lines {
+				out.Line(l)
+			}
+		}
+		fmt.Printf("stat\tprobe:%s\t1\n", sl.name)
+	}
+	out.Close()
+	fmt.Printf("stat\tprobe:candidates\t%d\n", tried)
+}
+
 func main() {
 	if len(os.Args) >= 4 && os.Args[1] == "gen" {
 		cmdGen(os.Args[2], os.Args[3])
+		return
+	}
+	if len(os.Args) >= 3 && os.Args[1] == "probe" {
+		cmdProbe(os.Args[2])
+		return
+	}
+	if len(os.Args) >= 3 && os.Args[1] == "seq" { // one process, the calls of the file in order (one "one" argument list per line)
+		data, err := os.ReadFile(os.Args[2])
+		if err != nil {
+			fmt.Fprintln(os.Stderr, err)
+			os.Exit(3)
+		}
+		for _, l := range strings.Split(strings.TrimRight(string(data), "\n"), "\n") {
+			if l != "" {
+				cmdOne(strings.Split(l, "\t"))
+			}
+		}
 		return
 	}
 	if len(os.Args) >= 3 && os.Args[1] == "one" {
 		cmdOne(os.Args[2:])
 		return
 	}
-	fmt.Fprintln(os.Stderr, "usage: gen <tier> <cases-out> | one <kind> <fields...>")
+	fmt.Fprintln(os.Stderr, "usage: gen <tier> <cases-out> | probe <cases-out> | one <kind> <fields...> | seq <file>")
 	os.Exit(3)
 }
